@@ -178,16 +178,19 @@ func (s *sched) passOn(w *worker, self *gor) {
 func (s *sched) block(w *worker, ready func() bool, what string) {
 	self := s.cur
 	for !ready() {
+		// (registered before picking: while main waits in finish(), its readiness depends on
+		// whether this goroutine can still run)
+		self.ready = ready
+		self.what = what
 		next := s.pick(self)
 		if next == nil {
 			if self.id == 0 && s.finishing {
+				self.ready = nil
 				return
 			}
 			w.finding("deadlock", "deadlock", "all goroutines are blocked ("+what+")", nil)
 			w.abort(abTarget, "deadlock")
 		}
-		self.ready = ready
-		self.what = what
 		s.cur = next
 		next.wake <- struct{}{}
 		<-self.wake
